@@ -379,6 +379,14 @@ def explore_orders(case):
 def explore_tlc(case):
     from .. import tlc_conf  # noqa: PLC0415
 
+    if case.get("tlc") == "ext":  # the wider model (field reassignment, rejected calls); the edge list is sliced over workers
+        part, parts = case.get("part", [0, 1])
+        r = tlc_conf.conformance_ext(tuple(case["config"]), part, parts)
+        t = r["tlc"]
+        return {"violations": r["violations"], "tlc": t, "reps": [],
+                "outcome": ["model-conformant" if not r["violations"] else "model-divergence"],
+                "stats": {"states": t["model_states"] if part == 0 else 0, "transitions": t["edges_replayed"], "depth_reached": 6,
+                          "frontier_closed_before_bound": True}}
     r = tlc_conf.conformance(tuple(case["config"]))
     t = r["tlc"]
     return {"violations": r["violations"], "tlc": t, "reps": [], "outcome": ["model-conformant" if not r["violations"] else "model-divergence"],
@@ -402,6 +410,7 @@ def run(ctx):
            {"configs": [list(CONFIGS[0]), list(CONFIGS[2])], "depth": pd}]
     cs += [{"configs": [list(CONFIGS[0]), list(CONFIGS[1])], "depth": pd}]  # two different single-phase fluids
     cs += [{"tlc": True, "config": list(CONFIGS[0])}, {"tlc": True, "config": list(CONFIGS[1])}]
+    cs += [{"tlc": "ext", "config": list(c), "part": [k, 4]} for c in CONFIGS[:2] for k in range(4)]
     cs += [{"orders": True, "config": list(CONFIGS[0]), "depth": 3 if ctx.thorough else 2},
            {"orders": True, "config": list(CONFIGS[1]), "depth": 2}]
     # 60 nodes, 128 levels (staleness gated on the size of the run), explored to depth 2 / 3
@@ -430,6 +439,8 @@ def run(ctx):
 
 
 def replay(case):
+    if case.get("tlc_ext"):
+        return explore_tlc({"tlc": "ext", "config": case["config"]})["violations"]
     if "model_edge" in case:
         return explore_tlc({"config": case["config"]})["violations"]
     if "pair_history" in case:
